@@ -49,6 +49,51 @@ class TUInfo:
     def members(self, q):
         return [f for f in self.tu.fns if queue_of(f) == q]
 
+    # ---- locks held at entry of internal helpers (A4/A5) --------------------------------------
+    def entry_locks(self, fn, must=True, _stack=None):
+        """Mutex paths (relative to the callee's `this`) held at entry: intersection (must) or union (may) over all
+        library call sites. Public functions and functions without library callers start with nothing held."""
+        key = (fn.id, must)
+        if not hasattr(self, '_entry'):
+            self._entry = {}
+        if key in self._entry:
+            return self._entry[key]
+        _stack = _stack or set()
+        if fn.id in _stack:
+            return frozenset()
+        callers = self.tu.callers().get(fn.id, [])
+        if fn.access == 'public' and must and fn.kind != 'lambda':
+            self._entry[key] = frozenset()
+            return self._entry[key]
+        res = None
+        for (g, n) in callers:
+            si = self.scopes(g)
+            pos = g.pos(n)
+            held = set(si.held_must(pos, 'lock') if must else si.held_may(pos, 'lock'))
+            held |= set(self.entry_locks(g, must, _stack | {fn.id}))
+            obj = g.nodes[n].get('obj')
+            recv = path(g, obj) if obj else ('this',)
+            mapped = set()
+            for m in held:
+                if tuple(m[:len(recv)]) == tuple(recv):
+                    mapped.add(('this',) + tuple(m[len(recv):]))
+                elif not must:
+                    mapped.add(('caller',) + tuple(m[1:]))     # held by the caller on another object: kept for may-analyses
+            if res is None:
+                res = mapped
+            elif must:
+                res &= mapped
+            else:
+                res |= mapped
+        res = frozenset(res or ())
+        self._entry[key] = res
+        return res
+
+    def held_names(self, fn, pos, must=True):
+        si = self.scopes(fn)
+        ps = set(si.held_must(pos, 'lock') if must else si.held_may(pos, 'lock')) | set(self.entry_locks(fn, must))
+        return {mutex_name(p) for p in ps}
+
 
 def list_uses(fn, field):
     """Uses of the list data member `field` of *this* queue: list of dict(node=use node, how, member=MemberExpr node).
